@@ -33,6 +33,12 @@ def is_h(x):
     return isinstance(x, tuple) and x and x[0] == "hybrid"
 
 
+# derived hybrid classes: name -> spec of the hybrid class it subclasses (a module constant, so that a replay rebuilds the
+# same hierarchy).  The derived class declares its own _xofields: other declared defaults, one more defaulted field.
+BASE_HV = ("hybrid", "HVbase", ((("n", ("scalar", "Int64"), 1)), ("x", ("scalar", "Float64"), None)), ())
+BASE_OF = {"HVder": BASE_HV}
+
+
 def build_h(spec):
     if spec in _cache:
         return _cache[spec]
@@ -49,7 +55,7 @@ def build_h(spec):
     data = {"_xofields": xof}
     if rename:
         data["_rename"] = dict(rename)
-    cls = MetaHybridClass(name, (xo.HybridClass,), data)
+    cls = MetaHybridClass(name, (build_h(BASE_OF[name]),) if name in BASE_OF else (xo.HybridClass,), data)
     _cache[spec] = cls
     return cls
 
@@ -200,6 +206,8 @@ def catalogue(tier="quick"):
         H("HS", [("s", STR, "abc"), ("n", i64, 3), ("t", STR)], rename=[("t", "tt")]),
         # declared defaults of dynamic array fields (a value of another length must not be compared by broadcasting)
         H("HK", [("v", arr(f64, [None]), (1.0, 1.0, 1.0)), ("w", arr(i16, [None]), (2, 2)), ("c", f64, 4.0), ("t", STR)], rename=[("w", "ww")]),
+        # a class derived from another hybrid class (BASE_OF), with its own fields and declared defaults
+        H("HVder", [("n", i64, 2), ("x", f64), ("y", f64, 0.5)]),
     ]
     if tier == "thorough":
         cat += [
